@@ -177,6 +177,9 @@ def main():
                     cell[tier] = ("caught by " + ", ".join(c for c, v in r["checks"].items() if v["exit"] == 1 and v["violations"])) if r.get("detected") else "missed"
                 else:
                     cell[tier] = "-"
+            st = m.get("status", "")
+            if st and cell["quick"] == "missed":
+                cell["quick"] = "not caught (%s)" % st.split(":")[0].split(",")[0]
             print("| %s | %s | %s | %s | %s |" % (s, m["property"], m.get("summary", "").replace("|", "/")[:160], cell["quick"], cell["thorough"]))
         return 0
     return 2
